@@ -29,39 +29,56 @@ func vcValid(path []Rule, declared []Rule, from, to string) string {
 		}
 		return false
 	}
-	if vcTrim(path[0].FromVersion) != vcTrim(from) {
+	if !vcSame(path[0].FromVersion, from) {
 		return fmt.Sprintf("starts at %s, not at %s", path[0].FromVersion, from)
 	}
-	if vcTrim(path[len(path)-1].ToVersion) != vcTrim(to) {
+	if !vcSame(path[len(path)-1].ToVersion, to) {
 		return fmt.Sprintf("ends at %s, not at %s", path[len(path)-1].ToVersion, to)
 	}
 	for i, r := range path {
 		if !isDecl(r) {
 			return fmt.Sprintf("step %d (%s) is not a declared rule", i, r)
 		}
-		if i > 0 && vcTrim(path[i-1].ToVersion) != vcTrim(r.FromVersion) {
+		if i > 0 && !vcSame(path[i-1].ToVersion, r.FromVersion) {
 			return fmt.Sprintf("step %d starts at %s but step %d ended at %s", i, r.FromVersion, i-1, path[i-1].ToVersion)
 		}
 	}
 	return ""
 }
 
+// vcSame: two spellings denote the same version: equal, or one of them has no group and the
+// versions without group are equal (two different groups are different versions)
+func vcSame(a, b string) bool {
+	if a == b {
+		return true
+	}
+	if strings.Contains(a, "/") && strings.Contains(b, "/") {
+		return false
+	}
+	return vcTrim(a) == vcTrim(b)
+}
+
+// vcReachable: a sequence of declared rules from `from` to `to` in which every step starts at
+// the version the previous one ended at (search over rules, not over versions: `same` is not transitive)
 func vcReachable(declared []Rule, from, to string) bool {
-	seen := map[string]bool{vcTrim(from): true}
-	queue := []string{vcTrim(from)}
+	seen := map[int]bool{}
+	var queue []int
+	for i, r := range declared {
+		if vcSame(r.FromVersion, from) {
+			seen[i] = true
+			queue = append(queue, i)
+		}
+	}
 	for len(queue) > 0 {
-		v := queue[0]
+		i := queue[0]
 		queue = queue[1:]
-		for _, r := range declared {
-			if vcTrim(r.FromVersion) == v {
-				n := vcTrim(r.ToVersion)
-				if n == vcTrim(to) {
-					return true
-				}
-				if !seen[n] {
-					seen[n] = true
-					queue = append(queue, n)
-				}
+		if vcSame(declared[i].ToVersion, to) {
+			return true
+		}
+		for j, r := range declared {
+			if !seen[j] && vcSame(declared[i].ToVersion, r.FromVersion) {
+				seen[j] = true
+				queue = append(queue, j)
 			}
 		}
 	}
@@ -147,6 +164,19 @@ func TestVerifConfChain(t *testing.T) {
 		check(declared, "a", "e", "-aliasing")
 		check(declared, "a", "f", "-aliasing")
 	}
+	// one short version spelled with two different groups: a step must not jump between groups
+	for _, tc := range []struct {
+		rules    []Rule
+		from, to string
+	}{
+		{[]Rule{{"v1", "a.io/v2"}, {"b.io/v2", "v3"}}, "v1", "v3"},
+		{[]Rule{{"v1", "a.io/v2"}, {"b.io/v2", "v3"}, {"a.io/v2", "v4"}}, "v1", "v4"},
+		{[]Rule{{"v1", "a.io/v2"}, {"b.io/v2", "v3"}, {"a.io/v2", "v4"}}, "v1", "v3"},
+		{[]Rule{{"a.io/v1", "v2"}, {"v2", "b.io/v3"}, {"a.io/v3", "v4"}}, "a.io/v1", "v4"},
+		{[]Rule{{"a.io/v1", "v2"}, {"v2", "b.io/v3"}, {"b.io/v3", "v4"}}, "v1", "v4"},
+	} {
+		check(tc.rules, tc.from, tc.to, "-groups")
+	}
 	// upgrade-only rule lines (the newest version is never a source) and a fork, every request
 	for n := 2; n <= 6; n++ {
 		var declared []Rule
@@ -164,5 +194,5 @@ func TestVerifConfChain(t *testing.T) {
 			check(declared, fmt.Sprintf("v%d", i), "v2fork", "-line")
 		}
 	}
-	fmt.Printf("CONF-STATS evaluated=%d scope=rule sets of <=5 rules over versions {v0,v1,v1beta1,v3} with mixed short/full spellings, all (from,to) requests; upgrade-only lines of 2-6 versions with a fork; every returned chain is sound, and a chain is found whenever the reference search finds one\n", evaluated)
+	fmt.Printf("CONF-STATS evaluated=%d scope=rule sets of <=5 rules over versions {v0,v1,v1beta1,v3} with mixed short/full spellings, all (from,to) requests; upgrade-only lines of 2-6 versions with a fork; five rule sets spelling one version with two groups; every returned chain is sound, and a chain is found whenever the reference search finds one\n", evaluated)
 }
